@@ -12,13 +12,25 @@
      Dim = log2 |AllWebsFire(bip)|), WebsSpan (Span(webs) = AllWebsFire(bip)), SameCount (every
      numbering returns as many webs as the first), RenamingIsIso (harness sanity: the renamed
      diagram is Rename(cur, map)).
+   API events (harness option --api, audit #23), L2 as well:
+     EdgeLookup   (field `lookups` of webs / renumber / pw / store): PauliWeb::edge(u, v), asked for every ordered pair
+                  of names, answers exactly the stored operator of the unordered pair, in both orders (Webs!LookupOK)
+     pw     : detection_webs::pw called directly with a caller-chosen firing set F, index map and column offset on the
+              bipartite diagram: NoPanic, WebEdgesExist, PwIsFiring (the web is FiringToWeb(bip, F): every leg of a fired Z
+              spider carries X, of a fired X spider Z, both -> Y, no other edge is marked), PwValid (a firing set that
+              satisfies FireOK gives a ValidWeb)
+     adj    : adjacency_matrix(None | Some(list)) on both backends: NoPanic, AdjMatrix (entry (i, j) = 1 iff the i-th and
+              j-th listed vertices are adjacent; None lists every vertex once)
+     store  : PauliWeb::new + set_edge sequence: NoPanic, NewIsEmpty, SetEdge (the readable web is the function on
+              unordered pairs defined by the calls, last call wins), EdgeLookup
    L1 (drift only): the logged bipartite form is the one the transcription MakeBipartite computes,
    up to the names of the new vertices. *)
 EXTENDS TraceLib, Webs
 VARIABLES l, cur, cnt0, viol, drift, stats
 vars == <<l, cur, cnt0, viol, drift, stats>>
 Init == l = 1 /\ cur = EmptyG /\ cnt0 = -1 /\ viol = <<>> /\ drift = <<>>
-        /\ stats = [diagrams |-> 0, calls |-> 0, webs |-> 0, panics |-> 0, maxdim |-> 0, bips |-> 0, nontrivial |-> 0]
+        /\ stats = [diagrams |-> 0, calls |-> 0, webs |-> 0, panics |-> 0, maxdim |-> 0, bips |-> 0, nontrivial |-> 0,
+                    lookups |-> 0, pw_calls |-> 0, pw_valid_firings |-> 0, adj_calls |-> 0, store_calls |-> 0]
 Check1(ok, name) == IF ok THEN <<>> ELSE <<<<l, name>>>>
 
 WebFromLog(b, lst) == [e \in WEdges(b) |-> IF \E j \in 1..Len(lst) : Edge(lst[j][1], lst[j][2]) = e
@@ -26,6 +38,11 @@ WebFromLog(b, lst) == [e \in WEdges(b) |-> IF \E j \in 1..Len(lst) : Edge(lst[j]
                                            ELSE "I"]
 LogOK(b, lst) == /\ \A j \in 1..Len(lst) : Edge(lst[j][1], lst[j][2]) \in WEdges(b) /\ lst[j][3] \in {"X", "Y", "Z"}
                  /\ \A j, k \in 1..Len(lst) : j # k => Edge(lst[j][1], lst[j][2]) # Edge(lst[k][1], lst[k][2])
+
+\* PauliWeb::edge against the stored map (only when the harness asked: option --api)
+LookupViol(e, weblist, lks) ==
+  IF \A i \in 1..Len(weblist) : LookupOK(WStoreOf(weblist[i]), WAnswers(lks[i]), e.asked_upto) THEN <<>> ELSE <<<<l, "EdgeLookup">>>>
+NLookups(e) == IF Has(e, "lookups") THEN FoldSeq(LAMBDA x, acc : acc + Len(x), 0, e.lookups) ELSE 0
 
 BipViol(e, pre, io) ==
   LET b == FromAbs(e.bip)
@@ -46,11 +63,12 @@ CallViol(e, pre) ==
                       \o Check1(Independent(ws), "WebsIndependent")
                       \o Check1(n = WLog2(Cardinality(A)), "CountIsDim")
                       \o Check1(Span(b, ws) = A, "WebsSpan"))
+          \o (IF Has(e, "lookups") THEN LookupViol(e, e.webs, e.lookups) ELSE <<>>)
 CallStats(e) ==
   IF e.res # "ok" THEN [stats EXCEPT !.calls = @ + 1, !.panics = @ + 1]
   ELSE LET n == Len(e.webs) IN
        [stats EXCEPT !.calls = @ + 1, !.webs = @ + n, !.maxdim = IF n > @ THEN n ELSE @,
-                     !.nontrivial = @ + (IF n > 0 THEN 1 ELSE 0)]
+                     !.nontrivial = @ + (IF n > 0 THEN 1 ELSE 0), !.lookups = @ + NLookups(e)]
 
 Step(e) ==
   CASE e.k = "reset" -> /\ cur' = FromAbs(e.pre) /\ cnt0' = -1
@@ -77,6 +95,31 @@ Step(e) ==
          /\ drift' = (IF e.res = "ok" THEN BipDrift(e, cur) ELSE <<>>) \o drift
          /\ stats' = [stats EXCEPT !.bips = @ + 1]
          /\ UNCHANGED <<cur, cnt0>>
+    [] e.k = "pw" ->
+         IF e.res # "ok" THEN /\ viol' = Append(viol, <<l, "NoPanic", "pw">>) /\ stats' = [stats EXCEPT !.pw_calls = @ + 1, !.panics = @ + 1]
+                              /\ UNCHANGED <<cur, cnt0, drift>>
+         ELSE LET b == FromAbs(e.bip)
+                  F == ToSet(e.fire)
+              IN /\ viol' = (IF ~LogOK(b, e.web) THEN <<<<l, "WebEdgesExist", "pw">>>>
+                             ELSE LET w == WebFromLog(b, e.web) IN
+                                  Check1(w = FiringToWeb(b, F), "PwIsFiring")
+                                  \o Check1(FireOK(b, F) => ValidWeb(b, w), "PwValid"))
+                            \o LookupViol(e, <<e.web>>, <<e.lookups>>) \o viol
+                 /\ stats' = [stats EXCEPT !.pw_calls = @ + 1, !.lookups = @ + Len(e.lookups),
+                                            !.pw_valid_firings = @ + (IF F # {} /\ FireOK(b, F) THEN 1 ELSE 0)]
+                 /\ UNCHANGED <<cur, cnt0, drift>>
+    [] e.k = "adj" ->
+         /\ viol' = (IF e.res # "ok" THEN <<<<l, "NoPanic", "adj">>>>
+                     ELSE Check1(AdjOK(cur, e.order, e.rows) /\ (e.how = "none" => IsVertexList(cur, e.order)), "AdjMatrix")) \o viol
+         /\ stats' = [stats EXCEPT !.adj_calls = @ + 1]
+         /\ UNCHANGED <<cur, cnt0, drift>>
+    [] e.k = "store" ->
+         /\ viol' = (IF e.res # "ok" THEN <<<<l, "NoPanic", "store">>>>
+                     ELSE Check1(e.new_is_empty, "NewIsEmpty")
+                          \o Check1(WAnswers(e.lookups) = WSetEdgeAnswers(e.ops), "SetEdge")
+                          \o LookupViol(e, <<e.web>>, <<e.lookups>>)) \o viol
+         /\ stats' = [stats EXCEPT !.store_calls = @ + 1, !.lookups = @ + (IF e.res = "ok" THEN Len(e.lookups) ELSE 0)]
+         /\ UNCHANGED <<cur, cnt0, drift>>
 Next == \/ /\ l <= NLines /\ Step(Rec[l]) /\ l' = l + 1
         \/ /\ l = NLines + 1 /\ Report(l, viol, drift, stats) /\ l' = l + 1 /\ UNCHANGED <<cur, cnt0, viol, drift, stats>>
 =============================================================================
